@@ -1,8 +1,192 @@
 package main
 
-import "verifharness/internal/proto"
+// Producer part of C17: the producer must honour the partitioner's choice,
+// offer keyed messages of consistency-requiring partitioners all partitions and
+// other messages only writable ones, and fail a message — sending nothing —
+// when the choice is out of range, the partitioner errs, or no partition is
+// available.
 
-// producer scenarios of C17 (filled in once the simulated cluster exists)
-func partProducerCases(tier string) int { return 0 }
+import (
+	"fmt"
+	"math/rand"
+	"sort"
+	"strings"
 
-func runPartProducerCase(prop, tier string, seed int64, k, idx int) proto.Rec { return proto.Rec{} }
+	"github.com/Shopify/sarama"
+
+	"verifharness/internal/proto"
+)
+
+func partProducerCases(tier string) int {
+	if tier == "thorough" {
+		return 3000
+	}
+	return 200
+}
+
+func c17Scenario(rng *rand.Rand) *prodScenario {
+	sc := &prodScenario{Topics: []string{"t"}, CloseMode: "asyncclose", ChannelBuf: -1, Acks: sarama.WaitForLocal, RetryMax: 1, Submitters: 1, Version: sarama.V0_11_0_0}
+	sc.Brokers = 1 + rng.Intn(3)
+	sc.Parts = 1 + rng.Intn(6)
+	sc.Partitioner = []string{"hash", "refhash", "manual", "roundrobin", "random"}[rng.Intn(5)]
+	sc.Leaderless = map[string]bool{}
+	switch rng.Intn(4) {
+	case 0: // every partition has a leader
+	case 1: // all leaderless
+		for p := 0; p < sc.Parts; p++ {
+			sc.Leaderless[fmt.Sprintf("t/%d", p)] = true
+		}
+	default:
+		for p := 0; p < sc.Parts; p++ {
+			if rng.Intn(3) == 0 {
+				sc.Leaderless[fmt.Sprintf("t/%d", p)] = true
+			}
+		}
+	}
+	if rng.Intn(5) == 0 {
+		sc.BadPartitioner = []string{"out-of-range-high", "out-of-range-neg", "error"}[rng.Intn(3)]
+	}
+	n := 3 + rng.Intn(25)
+	for i := 0; i < n; i++ {
+		ms := &msgSpec{ID: i, Topic: "t", Part: -1, N: i, Value: valueFor(i, rng.Intn(6), rng), KeyNil: true}
+		if rng.Intn(3) != 0 {
+			ms.Key, ms.KeyNil = randBytes(rng, 1+rng.Intn(8)), false
+		}
+		if sc.Partitioner == "manual" {
+			ms.Part = int32(rng.Intn(sc.Parts))
+			if rng.Intn(8) == 0 {
+				ms.Part = int32(sc.Parts + rng.Intn(2)) // out of range: must be rejected
+			}
+		}
+		sc.Msgs = append(sc.Msgs, ms)
+	}
+	return sc
+}
+
+func runPartProducerCase(prop, tier string, seed int64, k, idx int) proto.Rec {
+	rng := rand.New(rand.NewSource(proto.SubSeed(seed, idx, "c17prod")))
+	sc := c17Scenario(rng)
+	res := runProd(sc, rng)
+	rec := proto.Rec{ID: fmt.Sprintf("%s/%s/%d/%d:producer", prop, tier, seed, idx), Obs: map[string]int64{}}
+	if res.newErr != nil {
+		// a cluster without any leader still lets the producer be created; anything else is a setup problem
+		rec.Verdict, rec.Why = "inconclusive", "producer not created: "+res.newErr.Error()
+		return rec
+	}
+	var vs violSet
+	oracleC17prod(res, &vs, &rec)
+	rec.Viols = vs.list
+	rec.Sample = sampleOf(res)
+	rec.Sample["leaderless"] = sc.Leaderless
+	rec.Sample["bad_partitioner"] = sc.BadPartitioner
+	if res.stuck && len(vs.list) == 0 {
+		rec.Verdict, rec.Why = "inconclusive", "run did not complete (judged by C01/C12)"
+	}
+	return rec
+}
+
+func oracleC17prod(res *prodResult, vs *violSet, rec *proto.Rec) {
+	sc := res.sc
+	var all, writable []int32
+	for p := 0; p < sc.Parts; p++ {
+		all = append(all, int32(p))
+		if !sc.Leaderless[fmt.Sprintf("t/%d", p)] {
+			writable = append(writable, int32(p))
+		}
+	}
+	calls := map[*sarama.ProducerMessage][]partCall{}
+	for _, c := range res.partCalls {
+		calls[c.Ptr] = append(calls[c.Ptr], c)
+	}
+	outcome := map[*sarama.ProducerMessage]*outRec{}
+	for _, o := range res.outcomes {
+		outcome[o.Ptr] = o
+	}
+	onWire := map[int][]string{}
+	for _, p := range res.produced {
+		for _, b := range p.Batches {
+			for _, r := range b.Recs {
+				if id, ok := msgIDFromRecord(r); ok {
+					onWire[id] = append(onWire[id], fmt.Sprintf("%s/%d", p.Topic, p.Partition))
+				}
+			}
+		}
+	}
+	classes := map[string]bool{}
+	for _, sr := range res.submitted {
+		o := outcome[sr.Ptr]
+		cs := calls[sr.Ptr]
+		rec.Obs["partitioner_calls"] += int64(len(cs))
+		if o == nil {
+			continue // judged by C01
+		}
+		keyed := !sr.Spec.KeyNil
+		consistent := false
+		switch sc.Partitioner {
+		case "manual":
+			consistent = true
+		case "hash", "refhash":
+			consistent = keyed
+		}
+		want := writable
+		if consistent {
+			want = all
+		}
+		attr := fmt.Sprintf("%s,keyed=%v", sc.Partitioner, keyed)
+		if len(cs) == 0 {
+			// the partitioner is not consulted when no partition can be offered
+			classes["no-candidate"] = true
+			if len(want) != 0 {
+				vs.add("partitioner-not-consulted", attr, fmt.Sprintf("message id=%d: %d partitions could be offered but the partitioner was never called", sr.Spec.ID, len(want)))
+			}
+			if o.Success || len(onWire[sr.Spec.ID]) > 0 {
+				vs.add("sent-despite-error", attr+",no-partition", fmt.Sprintf("message id=%d: no partition was available yet success=%v, on the wire at %v", sr.Spec.ID, o.Success, onWire[sr.Spec.ID]))
+			}
+			continue
+		}
+		if len(cs) > 1 {
+			vs.add("partitioned-twice", attr, fmt.Sprintf("message id=%d was partitioned %d times", sr.Spec.ID, len(cs)))
+		}
+		c := cs[0]
+		if int(c.N) != len(want) {
+			vs.add("wrong-candidate-set", attr, fmt.Sprintf("message id=%d (%s, keyed=%v): the partitioner was offered %d partitions, expected %d (all=%v writable=%v)", sr.Spec.ID, sc.Partitioner, keyed, c.N, len(want), all, writable))
+			continue
+		}
+		if c.Err || c.Ret < 0 || c.Ret >= c.N {
+			classes["bad-choice"] = true
+			if o.Success || len(onWire[sr.Spec.ID]) > 0 {
+				what := "out-of-range"
+				if c.Err {
+					what = "partitioner-error"
+				}
+				vs.add("sent-despite-error", attr+","+what, fmt.Sprintf("message id=%d: partitioner returned %d (err=%v) for %d partitions, yet success=%v and the message is on the wire at %v", sr.Spec.ID, c.Ret, c.Err, c.N, o.Success, onWire[sr.Spec.ID]))
+			}
+			continue
+		}
+		chosen := want[c.Ret]
+		leaderless := sc.Leaderless[fmt.Sprintf("t/%d", chosen)]
+		classes[fmt.Sprintf("consistent=%v,leaderless=%v", consistent, leaderless)] = true
+		for _, w := range onWire[sr.Spec.ID] {
+			if w != fmt.Sprintf("t/%d", chosen) {
+				vs.add("choice-not-honoured", attr+",wire", fmt.Sprintf("message id=%d: the partitioner chose index %d = partition %d, but the message was sent to %s", sr.Spec.ID, c.Ret, chosen, w))
+			}
+		}
+		if o.Success {
+			if o.Partition != chosen {
+				vs.add("choice-not-honoured", attr+",outcome", fmt.Sprintf("message id=%d: the partitioner chose index %d = partition %d, the success reports partition %d", sr.Spec.ID, c.Ret, chosen, o.Partition))
+			}
+			if len(onWire[sr.Spec.ID]) == 0 {
+				vs.add("choice-not-honoured", attr+",not-sent", fmt.Sprintf("message id=%d reported successful but never reached the cluster", sr.Spec.ID))
+			}
+		} else if !leaderless && !res.stuck {
+			vs.add("false-error", attr, fmt.Sprintf("message id=%d: partition %d was chosen and has a leader, no fault was injected, yet the outcome is error %v", sr.Spec.ID, chosen, o.Err))
+		}
+	}
+	var cl []string
+	for k := range classes {
+		cl = append(cl, k)
+	}
+	sort.Strings(cl)
+	rec.NonTrivial = len(res.partCalls) > 0 || len(classes) > 0
+	rec.Path = fmt.Sprintf("producer|%s|bad=%s|parts=%d|leaderless=%d|%s", sc.Partitioner, sc.BadPartitioner, sc.Parts, len(sc.Leaderless), strings.Join(cl, ";"))
+}
